@@ -56,26 +56,14 @@ theorem build_accounts_once (w : World) (eid : Nat) (res : String) (batch : Nat)
         (w.build eid res batch inbound).1.inbound = (if inbound then w.inbound.recordBlock w.nowMs batch else w.inbound)) := by
   unfold World.build
   simp only []
-  cases hf : flowCheck (w.ctrls res) (w.node res) w.nowMs batch with
-  | none =>
-    cases hi : isoCheck (w.isoRules res) (w.node res) batch with
-    | none =>
-      left
-      simp only [World.node, lookup_update_same, Option.getD_some, and_self, true_and]
-    | some p =>
-      right
-      simp only [World.node, lookup_update_same, Option.getD_some, and_self, and_true]
-      exact ⟨_, _, _, rfl⟩
-  | some q =>
-    cases hi : isoCheck (w.isoRules res) (w.node res) batch with
-    | none =>
-      right
-      simp only [World.node, lookup_update_same, Option.getD_some, and_self, and_true]
-      exact ⟨_, _, _, rfl⟩
-    | some p =>
-      right
-      simp only [World.node, lookup_update_same, Option.getD_some, and_self, and_true]
-      exact ⟨_, _, _, rfl⟩
+  cases hv : w.verdict res batch inbound with
+  | pass =>
+    left
+    simp only [World.node, lookup_update_same, Option.getD_some, and_self]
+  | blocked ty rule snap =>
+    right
+    simp only [World.node, lookup_update_same, Option.getD_some, and_self, and_true]
+    exact ⟨_, _, _, rfl⟩
 
 /-- other resources' nodes are untouched by a build -/
 theorem build_frame (w : World) (eid : Nat) (res res' : String) (batch : Nat) (inbound : Bool)
@@ -83,8 +71,7 @@ theorem build_frame (w : World) (eid : Nat) (res res' : String) (batch : Nat) (i
     (w.build eid res batch inbound).1.node res' = w.node res' := by
   unfold World.build
   simp only []
-  cases hf : flowCheck (w.ctrls res) (w.node res) w.nowMs batch <;>
-  cases hi : isoCheck (w.isoRules res) (w.node res) batch <;>
+  cases hv : w.verdict res batch inbound <;>
   simp only [World.node, lookup_update_other _ _ _ _ hne]
 
 /-- outbound entries are never mirrored on the inbound totals -/
